@@ -592,6 +592,12 @@ func (d *driver) feedbackSlot() bool {
 	}
 	synctest.Wait()
 	d.window()
+	if d.c.Debug && d.slot%20 == 0 {
+		st := d.bwe.GetStats()
+		d.c.Logf("t=%v slot=%d target=%d loss=%v/%.3f delay=%v state=%v usage=%v est=%v thr=%v sent=%d wire=%d qdrop=%d lost=%d", time.Since(d.start), d.slot,
+			d.prevG, st["lossTargetBitrate"], st["averageLoss"], st["delayTargetBitrate"], st["state"], st["usage"], st["delayEstimate"], st["delayThreshold"],
+			d.nSent, d.sim.wire, d.sim.queueDrop, d.sim.lostN)
+	}
 	return true
 }
 
@@ -730,8 +736,11 @@ func (d *driver) drive() {
 	}
 	// drain what is still in flight
 	time.Sleep(1500*time.Millisecond + 250*time.Microsecond)
+	saved := s.advProb
 	s.advProb = 0
-	if !d.feedbackSlot() {
+	ok := d.feedbackSlot()
+	s.advProb = saved
+	if !ok {
 		return
 	}
 	d.closeAndAfter()
